@@ -16,7 +16,7 @@ Definition ku4 (m : list Z) : nat := (length (view m) / 4)%nat.
 Definition t2_reader_ok (m d : list Z) (st : list Z * list Z * list Z) : Prop :=
   let '(m1, F, c) := st in
   exists L c1 c2 cF, wfL m L /\ len d <= l_cap L /\ clean (view m) L t2_reader d c1 c2 cF /\ len m1 = len m /\
-    INV 4 (ku4 m) (zN L) (view m) cF (Sall (view m) L cF) (view m1) F c.
+    INV 4 (ku4 m) (zN L) (view m) cF (Sall (view m) L cF) (view m1) F c /\ F = view m1 /\ c = view m1.
 Definition safe_class (m d m' : list Z) : Prop := t2_fresh m' = t2_fresh m \/ t2_fresh m' = Msg [] \/ t2_fresh m' = Msg d.
 
 Section R.
@@ -81,22 +81,39 @@ Lemma g_attempt m1 F c kf f : len m1 = len m -> INVx (view m1) F c ->
   let '(r, (m2, F2, c2'), ex) := t2_attempt m1 L F c d kf f in
   m2 = apply_ws m1 ex /\ len m2 = len m /\ INVx (view m2) F2 c2' /\
   (forall i, safe_class m d (apply_ws m1 (firstn i ex))) /\
-  (r = Ok tt -> t2_fresh m2 = Msg d /\ t2_capacity m2 = Some (l_cap L)) /\ (kf = None -> r = Ok tt).
+  (r = Ok tt -> t2_fresh m2 = Msg d /\ t2_capacity m2 = Some (l_cap L)) /\ (kf = None -> r = Ok tt) /\ F2 = view m2 /\ c2' = view m2.
 Proof.
   intros Hl HI. unfold t2_attempt. use_wfL WF. rewrite Hwr. cbn [negb]. replace (l_cap L <? len d) with false by lia.
   rewrite Hl. pose proof (g_att (view m1) F c kf f HI) as A.
-  destruct (run_attempt 4 (len m) (view m1) F c (t2_phases L d) kf f) as [[r [[T2 F2] c2']] ex] eqn:E.
-  rewrite (run_attempt_mem 4 (len m) f _ (view m1) m1 _ _ _ _ _ _ _ _ E).
-  destruct A as (A1 & A2 & A3 & A4 & A5 & A6).
+  destruct (run_attempt 4 (len m) (fun x => x) (view m1) F c (t2_phases L d) kf f) as [[r [[T2 F2] c2']] ex] eqn:E.
+  destruct A as (A1 & A2 & A3 & A4 & A5 & A6 & A7 & A8).
   assert (Hz4 : (4 <= zN L / 4)%nat) by (unfold zN; apply Nat.div_le_lower_bound; lia).
   assert (Hb : forall ws, (forall w, In w ws -> In w ex) -> forall w, In w ws -> 16 <= fst w /\ fst w + len (snd w) <= len m1).
   { intros ws Hs w Hw. rewrite Forall_forall in A5. destruct (A5 w (Hs w Hw)) as [B1 B2]. rewrite Hl. split; [lia | exact B2]. }
+  rewrite (run_attempt_mem 4 (len m) f (fun x => x) view _ (view m1) m1 _ _ _ _ _ _ _ _ E)
+    by (intro j; apply (view_apply m1 (firstn j ex) (Hb _ (fun w H => In_firstn _ j w H)))).
   destruct (view_apply m1 ex (Hb ex (fun w H => H))) as [V1 V2].
   split; [reflexivity|]. split; [congruence|]. split; [rewrite V1, <- A1; exact A3|]. split.
   - intro i. destruct (view_apply m1 (firstn i ex) (Hb _ (fun w H => In_firstn _ i w H))) as [W1 _].
     apply (g_class _ _ (A2 i) W1).
-  - split; [|exact A6]. intro Hrok. unfold t2_fresh, t2_capacity. rewrite V1, <- A1, (A4 Hrok).
+  - split; [|split; [exact A6 | rewrite V1, <- A1; auto]]. intro Hrok. unfold t2_fresh, t2_capacity. rewrite V1, <- A1, (A4 Hrok).
     destruct HCF as (_ & _ & _ & _ & _ & _ & _ & R & _). rewrite R. cbn [classify set_val l_rd l_val l_cap]. rewrite Hrd. auto.
+Qed.
+Lemma set_val_val0 L0 : set_val L0 (l_val L0) = L0.
+Proof. destruct L0; reflexivity. Qed.
+(* a safe memory is again a well-formed layout, with the same NDEF TLV position, skip set and capacity *)
+Lemma g_wf m1 F c : len m1 = len m -> INVx (view m1) F c -> exists v, wfL m1 (set_val L v).
+Proof.
+  intros Hl HI.
+  assert (Hsafe : SAFEx (view m1)) by (destruct HI as (FT & _ & _ & Hm & _); split; [exact FT|]; destruct Hm as [(H & _)|[H|(H & _)]]; auto).
+  assert (Hv : exists v, t2_reader (view m1) = Ok (Some (set_val L v))).
+  { destruct (SAFE_classes em L 4 (ku4 m) t2_reader g_u g_k g_de g_off0 g_off1 g_tag g_cap g_s1 g_s23 g_tr d c1 c2 cF (len m) Hcap HCF g_n (view m1) Hsafe) as [E|[H|E]].
+    - exists (l_val L). rewrite E, set_val_val0. apply WF.
+    - exists []. apply (hdr0_read em L 4 (ku4 m) t2_reader g_u g_k g_de g_off0 g_off1 g_tag g_cap g_s1 g_s23 g_tr (view m1)); [pose proof (len_nonneg d); lia | exact H].
+    - exists d. rewrite E. apply HCF. }
+  destruct Hv as [v Ev]. exists v. use_wfL WF. unfold wfL. cbn [set_val l_rd l_wr l_dend l_hw l_off l_skip l_cap].
+  assert (length m1 = length m) by (unfold len in Hl; lia).
+  unfold len in *. split; [exact Ev|]. split; [congruence|]. repeat split; try assumption; try lia; apply S23; assumption.
 Qed.
 Lemma g_init : INVx em em em.
 Proof. apply (INV_init_x em L 4 (ku4 m) t2_reader g_u g_k g_de g_off0 g_off1 g_tag g_cap g_s1 g_s23 g_tr d c1 c2 cF (len m) Hcap HCF g_n). Qed.
@@ -110,7 +127,7 @@ Lemma t2_reader_ok_init m d cap : wf_layout m -> t2_capacity m = Some cap -> len
 Proof.
   intros Hwf Hc Hd. destruct (wf_layout_wfL m Hwf) as (L & HL). pose proof (wfL_capacity m L cap HL Hc) as E.
   destruct (g_clean m L d HL ltac:(lia)) as (c1 & c2 & cF & HCF). exists L, c1, c2, cF.
-  split; [exact HL|]. split; [lia|]. split; [exact HCF|]. split; [reflexivity|].
+  split; [exact HL|]. split; [lia|]. split; [exact HCF|]. split; [reflexivity|]. split; [|auto].
   eapply g_init; [exact HL | | exact HCF]. lia.
 Qed.
 
@@ -120,10 +137,10 @@ Theorem t2_attempt_reader_ok m d L m1 F c kf f : wfL m L -> t2_reader_ok m d (m1
   (forall i, safe_class m d (apply_ws m1 (firstn i ex))) /\
   (r = Ok tt -> t2_fresh (fst (fst st')) = Msg d /\ t2_capacity (fst (fst st')) = Some (l_cap L)) /\ (kf = None -> r = Ok tt).
 Proof.
-  intros HL (L' & c1 & c2 & cF & HL' & Hcap & HCF & Hl & HI). pose proof (wfL_unique m L' L HL' HL). subst L'.
+  intros HL (L' & c1 & c2 & cF & HL' & Hcap & HCF & Hl & HI & _ & _). pose proof (wfL_unique m L' L HL' HL). subst L'.
   pose proof (g_attempt m L d HL Hcap c1 c2 cF HCF m1 F c kf f Hl HI) as A.
-  destruct (t2_attempt m1 L F c d kf f) as [[r [[m2 F2] c2']] ex]. destruct A as (A1 & A2 & A3 & A4 & A5 & A6).
-  split; [exists L, c1, c2, cF; auto|]. cbn [fst snd]. auto.
+  destruct (t2_attempt m1 L F c d kf f) as [[r [[m2 F2] c2']] ex]. destruct A as (A1 & A2 & A3 & A4 & A5 & A6 & A7 & A8).
+  split; [exists L, c1, c2, cF; auto 10|]. cbn [fst snd]. auto.
 Qed.
 
 (* any number of failed (or completed) attempts keeps the invariant *)
@@ -168,4 +185,50 @@ Proof.
   pose proof (t2_attempt_reader_ok m d L m1 F c kf f HL Hok) as A.
   exists L, m1, F, c. split; [exact Ha|]. destruct (t2_attempt m1 L F c d kf f) as [[r st'] ex]. cbn [fst snd].
   destruct A as (_ & _ & A3 & _). split; [exact (A3 O) | exact A3].
+Qed.
+
+(* ---------------------------------------------------------------- another assignment with other data after failed attempts.
+   A reader_ok state is a fresh reader's state on a well-formed memory with the same layout, so the single-write theorems
+   apply to whatever is assigned next. *)
+Lemma set_val_val L : set_val L (l_val L) = L.
+Proof. destruct L; reflexivity. Qed.
+Lemma t2_attempt_set_val m1 L v F c d k f : t2_attempt m1 (set_val L v) F c d k f = t2_attempt m1 L F c d k f.
+Proof. reflexivity. Qed.
+
+Lemma reader_ok_wf m d m1 F c L : wfL m L -> t2_reader_ok m d (m1, F, c) ->
+  exists v, wfL m1 (set_val L v) /\ F = view m1 /\ c = view m1.
+Proof.
+  intros HL (L' & c1 & c2 & cF & HL' & Hcap & HCF & Hl & HI & EF & Ec). pose proof (wfL_unique m L' L HL' HL). subst L'.
+  destruct (g_wf m L d HL Hcap c1 c2 cF HCF m1 F c Hl HI) as [v Hv]. exists v. auto.
+Qed.
+
+Lemma wfL_wf m L : wfL m L -> wf_layout m /\ t2_capacity m = Some (l_cap L).
+Proof.
+  intro H. use_wfL H. split; [|unfold t2_capacity; rewrite Hr; reflexivity].
+  unfold wf_layout, wf_layoutb. rewrite Hr, Hrd, Hwr, S0, S1. cbn [negb andb].
+  assert (E : (length m mod 4 =? 0)%nat = true) by (apply Nat.eqb_eq; exact H4). rewrite E.
+  destruct (Z.ltb_spec (l_cap L) 255) as [Hc|Hc].
+  - cbn [orb]. lia.
+  - destruct (S23 Hc) as [-> ->]. cbn [negb andb orb]. lia.
+Qed.
+
+(* after any faulted attempts with data d1, an assignment of ANY data d2 (that may itself be cut or fail anywhere): a fresh
+   reader sees what the tag held before this assignment, an empty message, or d2; undisturbed it succeeds and reads back d2 *)
+Theorem t2_rewrite_safe m d1 cap faults d2 kf f : wf_layout m -> t2_capacity m = Some cap -> len d1 <= cap -> len d2 <= cap ->
+  exists L m1 F c, t2_after m d1 faults = Some (L, (m1, F, c)) /\ safe_class m d1 m1 /\
+    let '(r, st', ex) := t2_attempt m1 L F c d2 kf f in
+    (forall k2, safe_class m1 d2 (apply_ws m1 (firstn k2 ex))) /\
+    (kf = None -> r = Ok tt /\ t2_fresh (apply_ws m1 ex) = Msg d2 /\ t2_capacity (apply_ws m1 ex) = Some cap).
+Proof.
+  intros Hwf Hc Hd1 Hd2. destruct (t2_after_ok m d1 cap faults Hwf Hc Hd1) as (L & m1 & F & c & HL & E & Ha & Hok).
+  exists L, m1, F, c. split; [exact Ha|].
+  pose proof (t2_attempt_reader_ok m d1 L m1 F c (Some O) Lost HL Hok) as A0.
+  split. { destruct (t2_attempt m1 L F c d1 (Some 0%nat) Lost) as [[r0 st0] ex0]. destruct A0 as (_ & _ & A3 & _). exact (A3 O). }
+  destruct (reader_ok_wf m d1 m1 F c L HL Hok) as (v & HL1 & -> & ->).
+  destruct (wfL_wf m1 (set_val L v) HL1) as [Hwf1 Hc1]. cbn [set_val l_cap] in Hc1.
+  pose proof (t2_reader_ok_init m1 d2 (l_cap L) Hwf1 Hc1 ltac:(lia)) as Hok2.
+  pose proof (t2_attempt_reader_ok m1 d2 (set_val L v) m1 (view m1) (view m1) kf f HL1 Hok2) as A.
+  rewrite t2_attempt_set_val in A. destruct (t2_attempt m1 L (view m1) (view m1) d2 kf f) as [[r st'] ex].
+  destruct A as (_ & A2 & A3 & A4 & A5). split; [exact A3|]. intro Hk. specialize (A5 Hk). split; [exact A5|].
+  rewrite <- A2, <- E. apply A4, A5.
 Qed.
